@@ -89,10 +89,10 @@ class ApplicationRules:
         # AST-parse the formula
         try:
             tree = ast.parse(formula)
-        except SyntaxError:
+        except (SyntaxError, ValueError, RecursionError, MemoryError):
             raise ApplicationStatusParseError('AST parse failure')
-        # there must be only one element in the body
-        if len(tree.body) != 1:
+        # there must be only one element in the body, and it must be an expression
+        if len(tree.body) != 1 or type(tree.body[0]) is not ast.Expr:
             raise ApplicationStatusParseError('unsupported AST expression')
         # store the expression
         self._status_formula = formula
@@ -838,8 +838,12 @@ class ApplicationStatus:
             raise ApplicationStatusParseError(f'no match for expression={node.s}')
         # handle any/all functions
         if type(node) is ast.Call:
+            if type(node.func) is not ast.Name:
+                raise ApplicationStatusParseError('unsupported function call')
             if node.func.id not in ['all', 'any']:
                 raise ApplicationStatusParseError(f'unsupported function={node.func.id}')
+            if len(node.args) != 1 or node.keywords:
+                raise ApplicationStatusParseError(f'{node.func.id} takes exactly one positional argument')
             args_eval = self.evaluate(node.args[0])
             if type(args_eval) is bool:
                 args_eval = [args_eval]
@@ -903,7 +907,10 @@ class ApplicationStatus:
     def _get_matches(self, pattern_name: str) -> List[str]:
         """ Return the process names matching the pattern. """
         results = []
-        pattern = re.compile(r'^%s$' % pattern_name)
+        try:
+            pattern = re.compile(r'^%s$' % pattern_name)
+        except (re.error, OverflowError, RecursionError) as exc:
+            raise ApplicationStatusParseError(f'invalid pattern={pattern_name}: {exc}')
         for name in self.processes.keys():
             if pattern.match(name):
                 results.append(name)
